@@ -273,7 +273,7 @@ func c19PredKey(k int, p, sub string, impl, spec bool) string {
 		if c19DotOnly(sub) {
 			return "C19/ContainsPath/dot-only-sub"
 		}
-		if rooted && impl && !spec {
+		if rooted && impl && !spec && strings.Contains(p, "//") {
 			return "C19/ContainsPath/rooted-sub-after-double-slash"
 		}
 		if sub != c19Canonical(sub) && !impl && spec {
